@@ -29,6 +29,10 @@ type C16CliLine struct {
 type C16Cli struct {
 	Flags map[string]uint32 `json:"flags,omitempty"` // nil: run without the preprocessor
 	Lines []C16CliLine      `json:"lines"`
+	// CommentAt/CommentLen: line CommentAt (if there is one) carries a trailing comment of
+	// CommentLen characters; comments are of any length
+	CommentAt  int `json:"comment_at,omitempty"`
+	CommentLen int `json:"comment_len,omitempty"`
 }
 
 var c16FlagNames = []string{"locked", "haspin", "foo", "bar", "a", "flag_x", "to_foo"}
@@ -90,6 +94,10 @@ func genC16Cli(t *rapid.T) C16Cli {
 		}
 		c.Lines = append(c.Lines, l)
 	}
+	if chancePct(t, 35, "comment") {
+		c.CommentAt = uniformN(t, n, "commentat")
+		c.CommentLen = []int{1, 50, 4000, 4096, 65000, 65536, 66000, 70000, 131072, 300000}[uniformN(t, 10, "commentlen")]
+	}
 	// batch menu lines go last
 	nb := uniformN(t, 3, "nbatch")
 	for i := 0; i < nb; i++ {
@@ -113,13 +121,17 @@ func sortStrings(s []string) {
 // source as written, and with the flag names resolved by hand
 func (c C16Cli) sources() (written, resolved string) {
 	var w, r strings.Builder
-	for _, l := range c.Lines {
+	for i, l := range c.Lines {
 		wa, ra := append([]string{l.Op}, l.Args...), append([]string{l.Op}, l.Args...)
 		if l.FlagArg >= 0 && l.FlagArg < len(l.Args) {
 			ra[1+l.FlagArg] = fmt.Sprint(c.Flags[l.Args[l.FlagArg]])
 		}
-		w.WriteString(strings.Join(wa, " ") + "\n")
-		r.WriteString(strings.Join(ra, " ") + "\n")
+		comment := ""
+		if c.CommentLen > 0 && i == c.CommentAt {
+			comment = " # " + strings.Repeat("c", c.CommentLen)
+		}
+		w.WriteString(strings.Join(wa, " ") + comment + "\n")
+		r.WriteString(strings.Join(ra, " ") + comment + "\n")
 	}
 	return w.String(), r.String()
 }
